@@ -112,4 +112,52 @@ theorem lancero_to_ljh22_file {σ ρ : Type} (fops : C04.FloatOps σ ρ) (zero :
   rw [hcn1, hcn2] at this
   exact this
 
+/-- **A freshly prepared source, unconditionally.**  From `PrepareRun` (any restored trigger settings — edge-multi
+is switched off by `PrepareRun` —, valid record lengths), for any history of blocks as a data source delivers
+them with group-trigger requests woven in: the source does not crash (`C01_no_crash`), every record of
+every channel has the configured lengths, and each channel's LJH 2.2 file written over that period reads
+back as exactly the channel's published records.  No hypothesis about the run succeeding is left: it is
+discharged by the no-crash theorem. -/
+theorem prepared_source_to_ljh22_file (nch : Nat) (npre nsamp : Int) (saved : List (Nat × Trig.TS))
+    (hv : 3 ≤ npre ∧ npre < nsamp) (zts : List (List (Int × Int)))
+    (hzt : ∀ (j : Nat) (p : Int), -1 ≤ Pipe.ztOf (zts[j]?.getD []) p ∧ Pipe.ztOf (zts[j]?.getD []) p ≤ 1)
+    (ops : List Op) (F : Int) (hok : OpsOK nch F ops) (hk : ∀ o ∈ ops, KeepsSettings o) :
+    ∃ outs, runOps zts (prepare nch npre nsamp saved) ops = some outs ∧
+      ∀ (j : Nat), j < nch →
+        (∀ r ∈ chanRecs j outs, (r.data.length : Int) = nsamp ∧ r.npre = npre) ∧
+        ∀ (p : C05.Params) (hdr : C05.Bytes), p.nsamp = nsamp →
+        ∀ (batches : List (List C05.W22)), batches.flatten = (chanRecs j outs).map toW22 →
+          let recs := chanRecs j outs
+          let fin := C05.run (C05.fmt22 p hdr) {} (fileOps batches)
+          (recs = [] → C05.fileOf fin = none) ∧
+          (recs ≠ [] → ∃ file, C05.fileOf fin = some file ∧ file.take hdr.length = hdr ∧
+            C05.parseBody (C05.parseLJH22 p.nsamp.toNat 2) (file.drop hdr.length) =
+              some (recs.map fun r => C05.expect22 p.subdiv p.suboff (toW22 r)) ∧
+            file.length = hdr.length + recs.length * (16 + p.nsamp.toNat * 2)) := by
+  obtain ⟨outs, hrun⟩ := C01.C01_no_crash nch npre nsamp saved hv zts hzt ops F hok
+  refine ⟨outs, hrun, ?_⟩
+  intro j hj
+  have hjn : j < (prepare nch npre nsamp saved).chans.length := by simp [prepare]; exact hj
+  obtain ⟨c, hc⟩ : ∃ c, (prepare nch npre nsamp saved).chans[j]? = some c :=
+    ⟨_, List.getElem?_eq_getElem hjn⟩
+  obtain ⟨hcn1, hcn2⟩ := prepare_lens hc
+  have hem : c.ts.edgeMulti = false :=
+    (C02.prepare_fresh (f0 := -2305843009213693952 + nsamp) hc (Int.le_refl _)).2
+  have hlen := runOps_chanRecs_len zts j ops _ c outs hk hc hem hrun
+  refine ⟨by intro r hr; have := hlen r hr; rw [hcn1, hcn2] at this; exact this, ?_⟩
+  intro p hdr hp batches hbat
+  exact pipeline_to_ljh22_file_weave zts j ops _ c outs hk hc hem hrun p hdr (by rw [hp, hcn1]) batches hbat
+
+/-- non-vacuity: the hypotheses on the history are met by an ordinary one (blocks of two channels with a
+connection request in between) -/
+example : OpsOK 2 0 [.block 0 0 1000 [false, false] [[1, 2, 3], [4, 5, 6]], .gadd [(0, 1)],
+      .block 3 3000 1000 [false, false] [[7], [8]]] ∧
+    ∀ o ∈ [Op.block 0 0 1000 [false, false] [[1, 2, 3], [4, 5, 6]], .gadd [(0, 1)],
+      .block 3 3000 1000 [false, false] [[7], [8]]], KeepsSettings o := by
+  refine ⟨⟨rfl, 3, by simp, by decide, rfl, ?_⟩, ?_⟩
+  · exact ⟨rfl, 1, by simp, by decide, rfl, trivial⟩
+  · intro o ho
+    simp only [List.mem_cons, List.not_mem_nil, or_false] at ho
+    rcases ho with rfl | rfl | rfl <;> trivial
+
 end DastardV.Compose
